@@ -26,6 +26,7 @@ var (
 	c16pAutoPong     = sim.RegStat("probe:c16-automatic-pong-written")
 	c16pOversize     = sim.RegStat("probe:c16-oversize-message-refused")
 	c16pAsync        = sim.RegStat("probe:c16-async-write")
+	c16pBurst        = sim.RegStat("probe:c16-several-writes-submitted-back-to-back")
 	c16pChain        = sim.RegStat("probe:c16-write-started-from-inside-a-write-completion")
 	c16p64           = sim.RegStat("probe:c16-64-bit-length-written")
 )
@@ -126,6 +127,35 @@ func (d *c16) writeChain() {
 	step(0)
 	if !d.waitFor(&finished) {
 		c.Failf("async-write-never-completes", "a chain of %d AsyncWrite calls, each started from the previous completion: a callback was never invoked", n)
+	}
+}
+
+// writeBurst: several messages are submitted back to back, none waited for: whatever piles up behind the write in
+// flight must still leave in submission order.
+func (d *c16) writeBurst() {
+	c, w := d.c, d.w
+	n := w.Range(3, 6)
+	w.Stat(c16pBurst)
+	completed := 0
+	all := false
+	for i := 0; i < n; i++ {
+		size := w.Pick(10, 0, 125, 126, 3000, 65536)
+		if size > d.max {
+			size = d.max
+		}
+		d.lastSize = size
+		p := d.payload(size)
+		d.expected = append(d.expected, wsFrame{Fin: true, Opcode: wsBinary, Payload: p})
+		d.ws.AsyncWrite(p, websocket.TypeBinary, func(e error) {
+			if e != nil {
+				c.Failf("write-failed", "AsyncWrite of %d bytes, submitted while earlier writes were still in flight, failed on a healthy transport: %v", size, e)
+			}
+			completed++
+			all = completed == n
+		})
+	}
+	if !d.waitFor(&all) {
+		c.Failf("async-write-never-completes", "%d AsyncWrite calls submitted back to back: only %d callbacks were invoked", n, completed)
 	}
 }
 
@@ -310,7 +340,9 @@ func runC16(c *Ctx, variant int) {
 	steps := w.Range(2, c.Deep(12))
 	for i := 0; i < steps; i++ {
 		async := w.Chance(1, 2)
-		switch w.Choose(9) {
+		switch w.Choose(10) {
+		case 9:
+			d.writeBurst()
 		case 8:
 			d.writeChain()
 		case 0, 1, 2, 3:
